@@ -165,5 +165,5 @@ def phases(tier):
     quick = tier == 'quick'
     return [
         Phase('enumerated', check_case, gen=gen_enumerated(3 if quick else 4), exhaustive=True),
-        Phase('random', check_case, strategy=strategy, examples=1500 if quick else 30000),
+        Phase('random', check_case, strategy=strategy, examples=4000 if quick else 30000),
     ]
